@@ -346,10 +346,18 @@ def check(tier: str) -> int:
     if sdis:
         tie.append("correspondence Machine.run_case vs AnyIO on checkpoint-heavy programs")
     tie += it_part["tie_broken"]
+    import c08_census
+    unplaced, vanished, census_summary = c08_census.census(core.REPO)
+    if unplaced:
+        tie.append("API census: public awaitables not placed in the C08 table / exemption list: " + ", ".join(unplaced))
+    if vanished:
+        tie.append("API census: placed operations no longer found in the source: " + ", ".join(vanished))
     if tie and not hits and not shits and not it_part["hits"]:
         rep.violation("; ".join(tie), {"kind": "tie", "broken": tie, "case": (sdis[0] if sdis else None)}, no_input=True)
 
     rep.coverage.update({
+        "api_census": {"placed": census_summary, "unplaced": unplaced, "vanished": vanished,
+                       "rule": "every public async def of " + ", ".join(c08_census.MODULES) + " is a table row, a delegation to one, an exemption named by the property, covered by the itertools clause, or listed as outside the enumerated operations with its reason (harness/c08_census.py)"},
         "trusted_base": rep.assumptions,
         "evaluations": len(cases) + len(runs),
         "programs": len(cases) + len(runs),
